@@ -171,7 +171,7 @@ def acc_C09(w):
                   "step %d agent %s item %d, next event %s" % (t, who, j, peek()))
                 want_agent = e[2].agent_id
                 V(want_agent == who, "C09.batch_not_processed", "order of another agent processed in this batch")
-                running = e[-1]
+                running = e[-1]["running"]
                 if s["withOrderExecution"]:
                     if running:
                         r = nxt("round")
@@ -470,3 +470,94 @@ def acc_C11(w):
             raise Violation("C11.callbacks", "an agent's notifications differ from the events it is a party to (%s)" % ",".join(
                 ("missing " if any(kk == k2 for (kk, _f) in missing) else "extra ") + k2 for k2 in kinds),
                 "agent %s: %s" % (aid, "; ".join(what)))
+
+
+# =================================================================================================
+# C13
+
+
+def _filter_ok(flt, market, sim):
+    if not flt:
+        return True
+    for part in flt.split("+"):
+        kind, val = part.split(":")
+        if kind == "cls":
+            if val == "IndexMarket" and not isinstance(market, IndexMarket):
+                return False
+            # cls:Market / cls:ProbeMarket: every market of these scenarios is a Market
+            if val == "ProbeMarket" and isinstance(market, IndexMarket):
+                return False
+        else:
+            if sim.markets[int(val)] is not market:
+                return False
+    return True
+
+
+def acc_C13(w):
+    sim = w.runner.simulator
+    cfg = w.scn.cfg
+    occ = []  # (type, is_before, time, market_id)
+    for e in w.ev:
+        k = e[0]
+        if k == "acc":
+            occ += [("order", True, e[2].time, e[1]), ("order", False, e[2].time, e[1])]
+            w.wit.inc("order_occurrences")
+        elif k == "can":
+            occ += [("cancel", True, e[2].cancel_time, e[1]), ("cancel", False, e[2].cancel_time, e[1])]
+            w.wit.inc("cancel_occurrences")
+            if e[2].cancel_time != e[2].order_time:
+                w.wit.inc("cancel_later_than_order")
+        elif k == "round":
+            for l in e[2]:
+                occ.append(("execution", False, l.time, e[1]))
+                w.wit.inc("fill_occurrences")
+    for s in sim.sessions:
+        occ += [("session", True, s.session_start_time, None), ("session", False, s.session_start_time + s.iteration_steps - 1, None)]
+        for t in range(s.session_start_time, s.session_start_time + s.iteration_steps):
+            for m in sim.markets:
+                occ += [("market", True, t, m.market_id), ("market", False, t, m.market_id)]
+    exp = PyCounter()
+    for ev in sim.events:
+        specs = cfg[ev.name]["hooks"] if ev.name in cfg and "hooks" in cfg[ev.name] else []
+        for (ty, b, tm, flt) in specs:
+            for o in occ:
+                if o[0] != ty or o[1] != b:
+                    continue
+                if tm is not None and o[2] not in tm:
+                    continue
+                if ty == "market" and not _filter_ok(flt, sim.id2market[o[3]], sim):
+                    continue
+                exp[(ev.event_id, o[0], o[1], o[2], o[3])] += 1
+            if tm is None:
+                w.wit.inc("spec_time_none")
+            elif not tm:
+                w.wit.inc("spec_time_empty")
+            elif len(set(tm)) < len(tm):
+                w.wit.inc("spec_time_duplicate")
+    got = PyCounter((e[1], e[2], e[3], e[4], e[5]) for e in w.ev if e[0] == "hk")
+    if exp != got:
+        miss, extra = exp - got, got - exp
+        k = (list(extra) or list(miss))[0]
+        raise Violation("C13.invocations",
+                        "a hook was not invoked exactly once per matching occurrence (%s)" % ("invoked too often or where it should not" if extra else "not invoked"),
+                        "%s-%s hook, occurrence time %s market %s: expected %d got %d" % (
+                            "before" if k[2] else "after", k[1], k[3], k[4], exp[k], got[k]))
+    w.wit.inc("hook_invocations", sum(got.values()))
+    # 'before' hooks run before the occurrence takes effect
+    for e in w.ev:
+        if e[0] == "hk" and e[2] == "order" and e[3]:
+            V(e[6][0] is None and e[6][1] is None, "C13.before_effect", "a before-order hook saw an order that was already accepted")
+        if e[0] == "hk" and e[2] == "cancel" and e[3]:
+            V(e[6][0] is None, "C13.before_effect", "a before-cancel hook saw a cancel that was already accepted")
+    # a price written by a before-order hook is the price that gets accepted (after tick rounding)
+    altered = {id(e[1]): e[2] for e in w.ev if e[0] == "altered"}
+    if altered:
+        import math
+        for e in w.ev:
+            if e[0] == "acc" and id(e[3]) in altered:
+                p = altered[id(e[3])]
+                tick = sim.id2market[e[1]].tick_size
+                want = (math.floor(p / tick) if e[2].is_buy else math.ceil(p / tick)) * tick
+                V(e[2].price == want, "C13.alter", "a price written by a before-order hook is not the price that was accepted",
+                  "written %s accepted %s expected %s" % (p, e[2].price, want))
+                w.wit.inc("altered_order_accepted")
